@@ -1,0 +1,10 @@
+//go:build verif
+
+package types
+
+// VerifSkipSeal lets a simulation harness (build tag verif only) skip the
+// ethash seal computation for synthetic header branches that cannot be mined.
+// Every other header check stays in force.
+var VerifSkipSeal bool
+
+func verifSkipSeal() bool { return VerifSkipSeal }
